@@ -56,6 +56,14 @@ def run(ctx):
     for rs in REFSETS:
         txt = '{x > 0' + ''.join(f' and @{r}.v > 0' for r in rs) + '}'
         preds[rs] = prp.parse(txt)
+    # the same reference sets, with a quantifier elsewhere in the predicate that binds one of the referenced names (`@X.v` outside the
+    # quantifier stays a reference to the aliased message X; the quantified X is only visible inside the quantifier)
+    preds_q = {}
+    for rs in REFSETS:
+        names = rs if rs else ('X',)
+        q = names[0]
+        txt = '{x > 0 and (forall ' + q + ' in xs: @' + q + ' > 0)' + ''.join(f' and @{r}.v > 0' for r in rs) + '}'
+        preds_q[rs] = prp.parse(txt)
     topics = {'activator': 'a', 'trigger': 'b', 'behaviour': 'c', 'terminator': 'd'}
     ST = {'global': ScopeType.GLOBAL, 'after': ScopeType.AFTER, 'until': ScopeType.UNTIL, 'after_until': ScopeType.AFTER_UNTIL}
     PT = {'absence': PatternType.ABSENCE, 'existence': PatternType.EXISTENCE, 'response': PatternType.RESPONSE,
@@ -74,11 +82,13 @@ def run(ctx):
         grid = rng.sample(grid, 12000)
     cases = []   # (input, scope obj, pattern obj, impl verdict)
     for sc, pk, ev in grid:
-        objs = {p: HplSimpleEvent.publish(topics[p], preds[r], alias=a) for p, (a, r) in ev.items()}
+        shadow = rng.random() < 0.15
+        # (not on an event whose own alias is the quantified name: alias normalisation would capture the variable)
+        objs = {p: HplSimpleEvent.publish(topics[p], (preds_q if shadow and a != (r[0] if r else 'X') else preds)[r], alias=a) for p, (a, r) in ev.items()}
         scope = HplScope(ST[sc], activator=objs.get('activator'), terminator=objs.get('terminator'))
         pattern = HplPattern(PT[pk], objs['behaviour'], objs.get('trigger'))
         v = verdict(lambda: HplProperty(scope, pattern))
-        inp = {'route': 'api-grid', 'scope': sc, 'pattern': pk, 'events': {p: {'alias': a, 'refs': list(r)} for p, (a, r) in ev.items()}}
+        inp = {'route': 'api-grid', 'scope': sc, 'pattern': pk, 'quantifier_binds_a_referenced_name': shadow, 'events': {p: {'alias': a, 'refs': list(r)} for p, (a, r) in ev.items()}}
         cases.append((inp, scope, pattern, [v]))
     n_grid = len(cases)
 
